@@ -61,6 +61,16 @@ def gen_history(rng):
         init = {"states": rng.sample(range(k), rng.randint(0, 2)), "syms": rng.sample(range(len(SYMS)), rng.randint(0, 2)),
                 "starts": rng.sample(range(k), rng.randint(0, 1 if cls == "D" else 2)),
                 "finals": rng.sample(range(k), rng.randint(0, 2))}
+        if rng.random() < 0.5:
+            # a transition function filled beforehand and handed to the constructor
+            tf = []
+            for _ in range(rng.randint(1, 3)):
+                a = None if (cls == "E" and rng.random() < 0.25) else rng.randrange(len(SYMS))
+                t = [rng.randrange(k), a, rng.randrange(k)]
+                if cls == "D" and any(u[0] == t[0] and u[1] == t[1] for u in tf):
+                    continue
+                tf.append(t)
+            init["tf"] = tf
     return {"cls": cls, "ops": ops, "init": init}
 
 
@@ -71,10 +81,18 @@ def new(cls, init=None):
     states = {STATES[q] for q in init["states"]}
     syms = {SYMS[a] for a in init["syms"]}
     finals = {STATES[q] for q in init["finals"]}
+    kw = {}
+    if init.get("tf"):
+        from pyformlang.finite_automaton import TransitionFunction, NondeterministicTransitionFunction, Symbol
+        tf = TransitionFunction() if cls == "D" else NondeterministicTransitionFunction()
+        for q, a, r in init["tf"]:
+            tf.add_transition(State(STATES[q]), Epsilon() if a is None else Symbol(SYMS[a]), State(STATES[r]))
+        kw["transition_function"] = tf
     if cls == "D":
         return klass(states=states, input_symbols=syms, start_state=(STATES[init["starts"][0]] if init["starts"] else None),
-                     final_states=finals)
-    return klass(states=states, input_symbols=syms, start_state={STATES[q] for q in init["starts"]}, final_states=finals)
+                     final_states=finals, **kw)
+    return klass(states=states, input_symbols=syms, start_state={STATES[q] for q in init["starts"]}, final_states=finals,
+                 **kw)
 
 
 def sym(a):
@@ -154,13 +172,22 @@ def run_history(case, drv, res):
     if st != "ok":
         res.tag("constructor_raised")
         return
-    kw = {"init": init} if init is not None else {}
+    kw = {}
+    if init is not None:
+        minit = {k: init[k] for k in ("states", "syms", "starts", "finals")}
+        if init.get("tf"):
+            st, h = outcome(lambda: hidden(fa))
+            if st != "ok":
+                res.tag("hidden_unreadable")
+                return
+            minit["trans"] = h["trans"]      # the table as the transition function holds it (filled before the constructor)
+        kw = {"init": minit}
     answer = drv.call("fa.objRun", det=(cls == "D"), ops=ops, **kw)
     model = answer["steps"]
     st, h0 = outcome(lambda: hidden(fa))
     res.corr += 1
     m0 = answer["init"]
-    if st != "ok" or h0["trans"] != [] or any(h0[k] != sorted(m0[k], key=lambda x: (x is None, x))
+    if st != "ok" or h0["trans"] != [[q, [[a, sorted(ts)] for a, ts in row]] for q, row in m0["trans"]] or any(h0[k] != sorted(m0[k], key=lambda x: (x is None, x))
                                               for k in ("states", "syms", "starts", "finals")):
         res.corr_break("fa.__init__", "object after the constructor differs from the object model",
                        detail={"cls": cls, "init": init, "impl": str(h0)[:300], "model": str(m0)[:300]})
